@@ -148,7 +148,9 @@ bool build_fixtures(const secp256k1_context *ctx, uint64_t inseed, Fixtures &fx)
       FX(secp256k1_generator_generate(ctx, &fx.gen, fx.gen_seed));
       FX(secp256k1_generator_generate_blinded(ctx, &fx.genb, fx.gen_seed, fx.gen_blind));
       FX(secp256k1_generator_serialize(ctx, fx.gen33, &fx.gen));
-      fx.value[1] = g.below(1u << 30); fx.value[2] = g.below(1u << 30); fx.value[0] = fx.value[1] + fx.value[2];
+      fx.value[1] = g.below(1u << 30); fx.value[2] = g.below(1u << 30);
+      if (((inseed >> 9) & 3) == 0) fx.value[1] = (inseed >> 11) & 1;   // a quarter of the runs: tiny value, i.e. the smallest proof shapes (1-bit mantissa)
+      fx.value[0] = fx.value[1] + fx.value[2];
       valid_seckey(g, fx.blind[1]); valid_seckey(g, fx.blind[2]);
       const unsigned char *bl[2] = {fx.blind[1], fx.blind[2]};
       FX(secp256k1_pedersen_blind_sum(ctx, fx.blind[0], bl, 2, 2));
@@ -160,7 +162,7 @@ bool build_fixtures(const secp256k1_context *ctx, uint64_t inseed, Fixtures &fx)
       fx.rp_len = sizeof fx.rp_proof;
       { static const int mbits[4] = {0, 8, 32, 40};
         int rp_exp = (int)((inseed >> 3) % 4) - 1, rp_minbits = mbits[(inseed >> 5) % 4];   // proof shape varies with the run: public value, 1..3 digit exponents, ring counts
-        size_t mlen = rp_exp < 0 ? 0 : sizeof fx.rp_msg;
+        size_t mlen = (rp_exp < 0 || fx.value[1] < 2) ? 0 : sizeof fx.rp_msg;   // the embedded message needs ring capacity 128*(rings-1)
         FX(secp256k1_rangeproof_sign(ctx, fx.rp_proof, &fx.rp_len, 0, &fx.commit[1], fx.blind[1], fx.rp_nonce, rp_exp, rp_minbits, fx.value[1], fx.rp_msg, mlen, fx.rp_extra, sizeof fx.rp_extra, &fx.gen)); } }
     // surjection: output tag equals input tag 1
     { for (int i = 0; i < SJ_INPUTS; i++) g.fill(fx.sj_tags[i].data, 32);
